@@ -23,7 +23,7 @@ def run(ctx):
     # factors returned by RE-factorizations (new values on the old pattern, with and without pivot reuse, changing thread counts): the
     # same well-formedness predicate after every call of generated call histories, all four precision copies
     from vlib import hist as H
-    hst, hv = H.run_histories(ctx, 100 if ctx.quick() else 2500, seed_salt=909)
+    hst, hv = H.run_histories(ctx, 100 if ctx.quick() else 1000, seed_salt=909)
     for key, what, blob in hv[:10]:
         if key.startswith("factorization-of-current-values") and not any(f in key for f in ("wfL", "wfU", "permr", "permc")):
             continue        # numerical identity only: C08's subject
